@@ -8,7 +8,10 @@ RULE = ("scripted mixes on the real MessagesQueue<u64>: u unblocks, p pushes, 1.
         "blocking, try_pop on empty, token-only and mixed queues, pop_timeout with T in {5, 50, 200 ms} measured by wall clock "
         "(bounds T - 1 ms <= d <= 2T + 500 ms for empty-handed returns by time); the implementation's outcome must be one of the "
         "outcomes of the explored model; the oracle counts tokens (calls released + tokens queued = unblock calls) and checks "
-        "that no token or request stays queued while a receiver stays blocked; non-trivial = at least one unblock or timed call")
+        "that no token or request stays queued while a receiver stays blocked; the SAME calls at the Server API (`su`: recv, "
+        "recv_timeout, try_recv, incoming_requests and unblock issued one after the other with requests arriving in between; "
+        "results and timing class must equal the sequential run of the queue model and satisfy the FIFO reading of the "
+        "property); non-trivial = at least one unblock or timed call")
 ASSUMPTIONS = ["wall-clock slack of 500 ms for the upper bound (scheduling latency epsilon of the theorem)",
                "an awake thread is eventually scheduled"]
 oracle = mqbase.oracle_c17
@@ -67,6 +70,17 @@ def gen(tier, rng):
     for T in (5, 30):
         for sd in range(20):
             yield "mqs %d r0:timed%d|r1:timed%d,timed%d|p0:sleep%d" % (sd, T, T, T, 3 * T * 10), {"scheduled": "timed-alone"}
+    # a timed receiver that is woken several times for nothing (another receiver takes the value / the token first):
+    # every wake-up must leave it waiting for what is LEFT of its timeout, not return early
+    for sd in range(400 if tier == "quick" else 4000):
+        yield ("mqs %d r0:timed30|r1:sleep100,try,try,try,sleep99,try,try,try|p0:sleep100,push1,sleep100,push2" % (sd + 1)), {"scheduled": "stolen-wakeups"}
+    for sd in range(ns // 2):
+        yield ("mqs %d r0:timed30|r1:sleep100,try,sleep100,try|p0:sleep100,push1,sleep100,push2" % (sd * 3 + 1)), {"scheduled": "stolen-wakeups"}
+        yield ("mqs %d r0:timed30|r1:sleep80,try,sleep80,try,sleep80,try|p0:sleep80,unblock,sleep80,push5,sleep80,unblock" % (sd * 3 + 2)), {"scheduled": "stolen-wakeups"}
+        yield ("mqs %d r0:timed30,timed5|r1:sleep120,try,sleep120,try|p0:sleep120,push1,sleep120,push2,sleep150,push3" % (sd * 3 + 3)), {"scheduled": "stolen-wakeups"}
+    # the same calls at the Server API (recv, recv_timeout, try_recv, incoming_requests, unblock), one after the other
+    for x in mqbase.gen_su(tier, rng):
+        yield x
     for i in range(300 if tier == "quick" else 6000):
         sc = mqbase.rand_mqs(rng, allow_unblock=True)
         for sd in range(3):
